@@ -99,23 +99,46 @@ def paint_page(page_spec, nchars):
     return img
 
 
-def page_xml(page_spec, page_id):
-    """Input PAGE XML with the line geometry (no text): what a layout stage would hand over."""
+def page_xml(page_spec, page_id, style='pero', regions_only=False, size=None):
+    """Input PAGE XML with the line geometry (no text): what a layout stage would hand over.
+    style 'transkribus': no heights in @custom, 12-point baselines and polygons whose height varies along
+    the line, so that the importer has to guess the heights (it draws from numpy's global RNG).
+    regions_only: just TextRegions (polygon given by page_spec['region_poly']) for a line detector to fill."""
     from xml.sax.saxutils import quoteattr
     height, width, geo = page_geometry(page_spec)
+    if size is not None:
+        height, width = size
     out = ['<?xml version="1.0" encoding="UTF-8"?>',
            '<PcGts xmlns="http://schema.primaresearch.org/PAGE/gts/pagecontent/2019-07-15">',
            '  <Page imageFilename=%s imageWidth="%d" imageHeight="%d">' % (quoteattr(page_id), width, height)]
     nreg = max(1, int(page_spec.get('regions', 1)))
+    if regions_only:
+        w, h = width - 1, height - 1
+        poly = {'rect': [(4, 4), (w - 4, 4), (w - 4, h - 4), (4, h - 4)],
+                'penta': [(4, 4), (w - 4, 4), (w - 4, h - 4), (w // 2, h - 4), (4, h // 2)],
+                'penta2': [(4, 4), (w // 2, 4), (w - 4, h // 2), (w - 4, h - 4), (4, h - 4)],
+                'tri_ul': [(4, 4), (w - 4, 4), (4, h - 4)],
+                'tri_lr': [(w - 4, 4), (w - 4, h - 4), (4, h - 4)]}[page_spec.get('region_poly', 'rect')]
+        out.append('    <TextRegion id="r1"><Coords points="%s"/></TextRegion>' % ' '.join('%d,%d' % p for p in poly))
+        nreg = 0
     for r in range(nreg):
         out.append('    <TextRegion id="r%d"><Coords points="0,0 %d,0 %d,%d 0,%d"/>' % (r + 1, width, width, height, height))
         for j, g in enumerate(geo):
             if j % nreg != r:
                 continue
             y, x0, x1 = g['y'], g['x0'], g['x1']
-            out.append('      <TextLine id=%s index="%d" custom="heights_v2:[%.1f,%.1f]">' % (quoteattr(g['id']), j, HEIGHTS[0], HEIGHTS[1]))
-            out.append('        <Coords points="%d,%d %d,%d %d,%d %d,%d"/>' % (x0, y - 12, x1, y - 12, x1, y + 4, x0, y + 4))
-            out.append('        <Baseline points="%d,%d %d,%d"/>' % (x0, y, x1, y))
+            if style == 'transkribus':
+                n = 12
+                xs = [x0 + (x1 - x0) * i / (n - 1.0) for i in range(n)]
+                tops = [y - 12 - (i * 7 % 5) for i in range(n)]
+                out.append('      <TextLine id=%s index="%d">' % (quoteattr(g['id']), j))
+                pts = ['%d,%d' % (round(x), t) for x, t in zip(xs, tops)] + ['%d,%d' % (round(x), y + 4) for x in reversed(xs)]
+                out.append('        <Coords points="%s"/>' % ' '.join(pts))
+                out.append('        <Baseline points="%s"/>' % ' '.join('%d,%d' % (round(x), y) for x in xs))
+            else:
+                out.append('      <TextLine id=%s index="%d" custom="heights_v2:[%.1f,%.1f]">' % (quoteattr(g['id']), j, HEIGHTS[0], HEIGHTS[1]))
+                out.append('        <Coords points="%d,%d %d,%d %d,%d %d,%d"/>' % (x0, y - 12, x1, y - 12, x1, y + 4, x0, y + 4))
+                out.append('        <Baseline points="%d,%d %d,%d"/>' % (x0, y, x1, y))
             out.append('      </TextLine>')
         out.append('    </TextRegion>')
     out.append('  </Page>')
